@@ -217,9 +217,28 @@ class C05(Check):
             if failure.get('kind') == 'exception':
                 return 'error' in info, info
             return any('residuals' in p_ for p_ in info.get('problems', [])), info
+        rep, info = self._replay_fn(failure, model_fractions(failure.get('model')))
+        if rep or failure.get('kind') == 'exception':
+            return rep, info
+        # the obligations are linear identities in the crossing values: the solver's model fixes the incidence
+        # pattern, its values may be of wildly different magnitude (a residual then hides below the float
+        # tolerance); try well-scaled generic values on the same pattern
+        m = model_fractions(failure.get('model'))
+        for variant in range(3):
+            g = dict(m)
+            for k in list(g):
+                if k.startswith('t_'):
+                    h, s_ = (int(x) for x in k.split('_')[1:])
+                    g[k] = Fraction((7 * h + 3 * s_ * s_ + 5 * variant * (h + 1) * (s_ + 2) + 1) % 23, 2) + h * s_
+            rep, info2 = self._replay_fn(failure, g)
+            if rep:
+                info2['note'] = 'crossing values of the model replaced by well-scaled generic values on the same incidence pattern'
+                return rep, info2
+        return False, info
+
+    def _replay_fn(self, failure, m):
         S, L = [int(x) for x in failure['harness'].split('[')[1].rstrip(']').split('x')]
         ids = [3 * s + 1 for s in range(S)]
-        m = model_fractions(failure.get('model'))
         real = loader.real_module('spowtd.fit_offsets')
         mapping = concrete_mapping(S, L, ids, m)
         info = {'entry': 'spowtd.fit_offsets.find_offsets', 'head_mapping': mapping,
